@@ -1,7 +1,8 @@
 (** Executable checks for the correspondence run of C08 (tools/props/c08.py).  No proofs here.
 
     [c08_check fx st cells kind out]:
-      fx    = which variant of the code the /repo working tree holds (detected by sentinel cases),
+      fx    = which variant of the code the /repo working tree holds (five flags detected by sentinel cases, [fx_raw] read
+              from the text of `export_stack` and cross-checked by a sentinel case),
       kind  = 0 the implementation returned Ok with the shapes [out] (one list per cell, in order),
               1 it returned Err (stack validation or conversion), 2 it panicked.
     Result = code + 10 * flags, code as in the guide:
